@@ -18,6 +18,7 @@ func init() {
 			"R07.3 the Accept parsers of package header cannot index or slice out of range (bounds obligations, see R07.3 in evidence); R07.4 the q-value accumulators are multiplied only under a constant bound (no integer overflow: float64(n)/float64(d) is the denoted number), and the digit loop is left only at a non-digit or at the end of input (so the rest of the header line is parsed from the right place); " +
 			"R07.5 validation.responseFormat always negotiates and records a 406 whenever nothing was negotiated for an operation that declares produces, and the handler stage is reached only with an empty error accumulator; R07.6 a type/* range is compared with the offer by a prefix that keeps the slash, and an exact range by equality with the normalised offer; ParseAccept is only ever given canonical header names. " +
 			"R07.2 also: a selection happens only when the range's q is not below the best q so far, the specificity rank a selection records is the rank its tie-break compares against, and the recorded ranks are ordered */* > type/* > exact; R07.4 also: the parameter-skipping loop of ParseAccept stops at the next range separator. " +
+			"R07.4 also: the loop over the header's lines is never left early; R07.5 also: every context a memoising accessor writes into derives from the Context() of the request it was given. " +
 			"NOT decided: the lexicographic maximum over (q, specificity, position) — a flipped > / >= is not claimed to be caught.",
 		Run: runC07,
 	})
